@@ -58,6 +58,17 @@ def n_shortest(adj, dist_s, e):
 def task(t, res):
     from maze_dataset.maze import LatticeMaze
 
+    if t.get("mixed"):
+        # graphs of different shapes with the same number of cells (their arrays can have identical bytes), interleaved in one
+        # fresh interpreter: an answer remembered for one maze must not be served for another
+        per = [[(r, c, b) for b in range(R.n_graphs(r, c))] for (r, c) in t["mixed"]]
+        seq = [x for k in range(max(map(len, per))) for x in (p[k] for p in per if k < len(p))]
+        if t["order"] == "reversed":
+            seq = seq[::-1]
+        for (r, c, b) in seq:
+            task(dict(shape=(r, c), range=(b, b + 1), via_solved=1 if b % 4 == 0 else None, nosample=True), res)
+            res.count("mixed_sequence_graphs")
+        return
     r, c = t["shape"]
     cells = R.cells(r, c)
     lo, hi = t["range"]
@@ -80,7 +91,8 @@ def task(t, res):
                 for e in cells:
                     rd = dict(shape=[r, c], bits=bits, s=s, e=e, via="from_targeted_lattice_maze")
                     judge(m, adj, dist_from, s, e, res, f"{r}x{c}", rd, via="from_targeted_lattice_maze")
-    res.sample(dict(shape=[r, c], bits_range=[lo, hi], pairs_per_graph=len(cells) ** 2), cap=2)
+    if not t.get("nosample"):
+        res.sample(dict(shape=[r, c], bits_range=[lo, hi], pairs_per_graph=len(cells) ** 2), cap=2)
 
 
 def structured(n):
@@ -149,13 +161,17 @@ def run(ctx):
         for lo in range(0, n, step):
             tasks.append(dict(shape=(r, c), range=(lo, min(n, lo + step)), via_solved=(16 if r * c <= 9 else 64)))
     ctx.pmap("mzcheck.checks.c02", "task", tasks)
+    groups = [[(2, 3), (3, 2)], [(1, 4), (4, 1), (2, 2)], [(1, 3), (3, 1)]] + ([] if ctx.quick else [[(2, 4), (4, 2)]])
+    ctx.pmap("mzcheck.checks.c02", "task", [dict(mixed=g, order=o) for g in groups for o in ("interleaved", "reversed")], fresh=True)
     st = []
     for n in ([5, 8] if ctx.quick else [5, 8, 12, 20]):
         for name in structured(n):
             st.append(dict(n=n, name=name))
     ctx.pmap("mzcheck.checks.c02", "task_structured", st)
     ctx.coverage.update(grids=[list(s) for s in shapes], graphs=sum(R.n_graphs(*s) for s in shapes),
-                        structured=[f"{t['name']}{t['n']}" for t in st])
+                        structured=[f"{t['name']}{t['n']}" for t in st],
+                        mixed_sequences=dict(groups=[[list(x) for x in g] for g in groups], orders=["interleaved", "reversed"],
+                                             graphs=ctx.res.counters.get("mixed_sequence_graphs", 0)))
     ctx.rule = ("every connection structure (bit vector over lattice edges) on the listed grids x every ordered (start,end) pair, vs reference BFS; "
                 "non-trivial = pairs with >= 2 competing shortest routes or whose shortest route exceeds the Manhattan distance (distinct by graph+pair)")
     ctx.exhaustive = True
